@@ -172,29 +172,32 @@ def resetEffectivePath (path : List PathE) (index maxOccur : Nat) : List PathE :
   | some i => path.mapIdx fun j e => if j = i then { e with max := maxOccur } else e
   | none => path
 
-/-- `reset_symmetrical_choices`; `none` = the `assert attr.restrictions.sequence is not None`
-fails (a member of a symmetrical group without a sequence number) -/
-def resetSymmetrical (ss : List Site) : Option (List Site) :=
+/-- `reset_symmetrical_choices` (after the repair `fix: UpdateAttributesEffectiveChoice treats a merged
+group as a symmetrical sequence only when every attr of the group belongs to that sequence`): the
+set of sequences is collected over *all* attrs of the group, `None` included, and the group is
+symmetrical only if it is one sequence and not `None`; the two asserts of the loop cannot fire.
+(Before the repair attrs without a sequence were skipped, a group mixing attrs of a sequence with
+attrs outside of it passed the test and generation died with `AssertionError`.) -/
+def resetSymmetrical (ss : List Site) : List Site :=
   let choices := (ss.filterMap (·.choice)).eraseDups.filter (· ≤ 0)
-  choices.foldlM (fun (ss : List Site) (c : Int) =>
+  choices.foldl (fun (ss : List Site) (c : Int) =>
     let grp := ss.filter (·.choice = some c)
     let mins := (grp.map (·.min)).eraseDups
     let maxs := (grp.map (·.max)).eraseDups
-    let seqs := (grp.filterMap (fun s => s.sequence.bind fun q => if q = 0 then none else some q)).eraseDups
-    if mins.length = 1 && maxs.length = 1 && seqs.length = 1 then
-      if grp.any (·.sequence.isNone) then none else
-      some (ss.map fun s =>
+    let seqs := (grp.map (·.sequence)).eraseDups
+    if mins.length = 1 && maxs.length = 1 && seqs.length = 1 && !seqs.contains none then
+      ss.map fun s =>
         if s.choice = some c then
           match s.sequence with
           | some sq => { s with choice := none, path := resetEffectivePath s.path sq s.max }
           | none => s
-        else s)
-    else some ss) ss
+        else s
+    else ss) ss
 
 /-- `UpdateAttributesEffectiveChoice.process` -/
-def effectiveChoice (ss : List Site) : Option (List Site) :=
+def effectiveChoice (ss : List Site) : List Site :=
   let groups := groupRepeating ss
-  if groups.isEmpty then some ss else
+  if groups.isEmpty then ss else
   resetSymmetrical (mergeEffective ss (connectedComponents groups))
 
 /-! ### MergeAttributes.merge_duplicate_attrs -/
@@ -219,7 +222,7 @@ def mergeDuplicates (ss : List Site) : List Site :=
         else e) []
 
 /-- the three handlers in the order of `ClassContainer.processors[Steps.FLATTEN]` -/
-def occurs (ss : List Site) : Option (List Site) := (effectiveChoice (calculatePaths ss)).map mergeDuplicates
+def occurs (ss : List Site) : List Site := mergeDuplicates (effectiveChoice (calculatePaths ss))
 
 /-- `Restrictions.is_list` / `is_optional` -/
 def Site.isList (s : Site) : Bool := s.max > 1
